@@ -29,6 +29,15 @@ func (c *DynamicCache[T]) CheckAndSet(key T) bool {
 	return false
 }
 
+func (c *DynamicCache[T]) Has(key T) bool {
+	if c.isDistributed {
+		return false
+	}
+	c.mtx.Lock()
+	defer c.mtx.Unlock()
+	return c.sets.Has(append(c.db, c.serializer(key)...))
+}
+
 func (c *DynamicCache[T]) Stop() {
 	c.cleanup.Stop()
 }
